@@ -351,7 +351,10 @@ def check(ctx):
         if I is None:
             return
         op, name, rev = rng.choice([("add", "+", False), ("add", "+", True), ("sub", "-", False),
-                                    ("mul", "*", False), ("mul", "*", True), ("div", "/", False), ("div", "/", False)])
+                                    ("mul", "*", False), ("mul", "*", True), ("div", "/", False), ("div", "/", False),
+                                    # number-first `-` and `/` are not offered by the code (no overload): fine — but IF a value comes
+                                    # back it must enclose every point, and a divisor interval reaching 0 must be rejected
+                                    ("sub", "-", True), ("div", "/", True), ("div", "/", True)])
         n = gen_scalar(rng)
         if op == "div" and rng.random() < 0.85 and n.val == 0:
             n = gen_scalar(rng, rng.choice(["neg", "pos"]))
@@ -363,6 +366,12 @@ def check(ctx):
         ctx.sample(dict(text=txt, real=canon_result(real, res)))
         wf(txt, res)
         nv = realval(n)
+        if rev and op in ("sub", "div"):
+            if res[0] == "err" and res[1] == "nomatch":
+                return                       # not offered: nothing is claimed
+            enclosure(txt, res, I, name, lambda x: (nv, x), "n %s x" % name,
+                      expect_reject=(op == "div" and Fraction(I.a) <= 0 <= Fraction(I.b)) or None)
+            return
         enclosure(txt, res, I, name, (lambda x: (nv, x)) if rev else (lambda x: (x, nv)), "x %s n" % name,
                   expect_reject=(op == "div" and nv == 0) or None)
         if rev:
@@ -581,6 +590,24 @@ def check(ctx):
             if not ok:
                 ctx.violation("eq-ne:" + t_eq, t_ne, "1 - (%s) = 1 - %s" % (t_eq, canon_result(real, r_eq)), canon_result(real, r_ne), HOW % t_ne)
 
+    def case_near_reversed():
+        """bounds written in the wrong order by a hair (relative 1e-9 … one ulp, exact and float): whatever the constructor
+        makes of them, what comes out has lower <= upper, and so has everything computed from it"""
+        x = gen_scalar(rng, rng.choice(["neg", "pos"]))
+        k = rng.choice([9, 10, 12, 15, 17, 20])
+        forms = ["[%s + 1/10^%d, %s]" % (x.text, k, x.text), "[%s, %s - 1/10^%d]" % (x.text, x.text, k),
+                 "[10^%d + 1, 10^%d]" % (k, k), "[0.1 + 0.2, 0.3]", "[%s*(1 + 1/10^%d), %s]" % (x.text, k, x.text) if x.val > 0 else "[1 + 1/10^%d, 1]" % k,
+                 "interval(%s + 1/10^%d, %s)" % (x.text, k, x.text), "[1e-%d, 0]" % k]
+        lit = rng.choice(forms)
+        for txt in (lit, "-(%s)" % lit, "(%s) + 1" % lit, "(%s) * 2" % lit, "abs(%s)" % lit):
+            if not fresh(txt):
+                continue
+            res = real.value(txt)
+            ctx.count(txt, bucket="near-reversed/" + ("ok" if res[0] == "ok" else "err"))
+            wf(txt, res)
+            if res[0] == "err" and (res[1].startswith("py:") or res[1] == "diverges"):
+                ctx.violation("errclass:" + txt, txt, "a value or a diagnosed error", "err " + res[1], HOW % txt)
+
     def case_minmax():
         a, b, shape = gen_interval(rng)
         I = operand(a, b)
@@ -631,7 +658,7 @@ def check(ctx):
         add_case("%s %s %s" % (form, C(x), C(y)), txt, res, "pm")
 
     kinds = [(case_binop, 26), (case_pow, 18), (case_unary, 14), (case_log, 10), (case_cmp, 16),
-             (case_in, 5), (case_eq, 5), (case_eq_scalar, 3), (case_minmax, 6), (case_pm, 4)]
+             (case_in, 5), (case_eq, 5), (case_eq_scalar, 3), (case_near_reversed, 2), (case_minmax, 6), (case_pm, 4)]
     fns = [f for f, w in kinds for _ in range(w)]
 
     # corpus first: the two repaired defects and hand-picked edges, as plain text through the same oracles
